@@ -44,3 +44,61 @@ contract("_RealFinder.is_function_keyword_parameter", source=W + "_RealFinder.is
              "           self.code[nxt(self, offset):nxt(self, offset) + 2] != '==' and prv(self, offset) - 1 >= 0 and "
              "           (self.code[prv(self, offset)] == ',' or self.code[prv(self, offset)] == '('))"],
          note="a comparison `f(count == limit)` is not a keyword argument")
+
+# ---- CPython cross-checks on the real finder / fake name objects ----------------------------------------------------------------------------
+def _xc_kw_domain(tier, seed):
+    texts = ["f(a=1)", "f(a==1)", "f(b, a = 2)", "f(b,a=2)", "a = 1", "f(x)(a=1)", "f(a =1, c==a)", "(a=1)", "f(\n a=1)", "f(a) = 1", "a=1", " a =1", "g(aa == limit)", "g(k,aa= limit)"]
+    for t in texts:
+        for off in range(len(t)):
+            if t[off].isalnum() or t[off] == "_":
+                yield (t, off)
+
+
+def _xc_kw_build(case):
+    from rope.base import worder
+    t, off = case
+    return {"self": worder._RealFinder(t, t), "offset": off}
+
+
+bounded_check(name="c20-keyword-parameter-native", props=["C20"], contract="_RealFinder.is_function_keyword_parameter", build=_xc_kw_build, domain=_xc_kw_domain,
+              exhaustive=True, env={"wend": lambda f, o: f._find_word_end(o), "wstart": lambda f, o: f._find_word_start(o),
+                                    "fnsc": lambda f, o: f._find_first_non_space_char(o), "lnsc": lambda f, o: f._find_last_non_space_char(o)},
+              label="CPython cross-check: is_function_keyword_parameter's contract on 14 call/assignment texts x every identifier offset")
+
+
+class _XcScope:
+    def __init__(self, mod, end):
+        self.pyobject = self
+        self._mod, self._end = mod, end
+
+    def get_module(self):
+        return self._mod
+
+    def get_end(self):
+        return self._end
+
+
+class _XcName:
+    def __init__(self, loc):
+        self._loc = loc
+
+    def get_definition_location(self):
+        return self._loc
+
+
+def _xc_da_domain(tier, seed):
+    for loc in (None, ("M", None), ("M", 3), ("M", 5), ("M", 9), ("OTHER", 5)):
+        for lineno in (1, 5, 6):
+            for end in (4, 5, 8):
+                yield (loc, lineno, end)
+
+
+def _xc_da_build(case):
+    from rope.contrib import codeassist
+    loc, lineno, end = case
+    return {"self": object.__new__(codeassist._PythonCodeAssist), "scope": _XcScope("M", end), "pyname": _XcName(loc), "lineno": lineno}
+
+
+bounded_check(name="c20-defined-after-native", props=["C20"], contract="_PythonCodeAssist._is_defined_after", build=_xc_da_build, domain=_xc_da_domain, exhaustive=True,
+              env={"defloc": lambda p: p.get_definition_location(), "module_of": lambda o: o.get_module(), "end_of": lambda s: s.get_end()},
+              label="CPython cross-check: _is_defined_after's contract with stand-in scope/name objects: 6 definition locations (other module, no line) x 3 lines x 3 scope ends")
